@@ -154,6 +154,39 @@ func NewPrimary(w *wal.WAL, config *PrimaryConfig) (*Primary, error) {
 	return primary, nil
 }
 
+// takeBatch takes the pending batch out of the batcher. The batcher only
+// labels a batch with the configured codec; the payloads are compressed here,
+// so that what a replica is told about a response is true. Without compression
+// enabled, or if an entry cannot be compressed, the batch goes out plain.
+func (p *Primary) takeBatch() *proto.WALStreamResponse {
+	response := p.batcher.GetBatch()
+	if !response.Compressed {
+		return response
+	}
+
+	compressed := make([][]byte, len(response.Entries))
+	ok := p.enableCompression
+	for i := 0; ok && i < len(response.Entries); i++ {
+		payload, err := p.compressor.Compress(response.Entries[i].Payload, response.Codec)
+		if err != nil {
+			log.Error("Error compressing entry %d: %v", response.Entries[i].SequenceNumber, err)
+			ok = false
+			break
+		}
+		compressed[i] = payload
+	}
+
+	if !ok {
+		response.Compressed = false
+		response.Codec = proto.CompressionCodec_NONE
+		return response
+	}
+	for i, entry := range response.Entries {
+		entry.Payload = compressed[i]
+	}
+	return response
+}
+
 // OnWALEntryWritten implements WALEntryObserver.OnWALEntryWritten
 func (p *Primary) OnWALEntryWritten(entry *wal.Entry) {
 	log.Info("WAL entry written: seq=%d, type=%d, key=%s",
@@ -169,7 +202,7 @@ func (p *Primary) OnWALEntryWritten(entry *wal.Entry) {
 
 	if batchReady {
 		log.Info("Batch ready for broadcast with %d entries", p.batcher.GetBatchCount())
-		response := p.batcher.GetBatch()
+		response := p.takeBatch()
 		p.broadcastToReplicas(response)
 	} else {
 		log.Info("Entry added to batch (not ready for broadcast yet), current count: %d",
@@ -179,7 +212,7 @@ func (p *Primary) OnWALEntryWritten(entry *wal.Entry) {
 		// This is particularly important in low-traffic scenarios
 		if p.batcher.GetBatchCount() > 0 {
 			log.Info("Forcibly sending partial batch with %d entries", p.batcher.GetBatchCount())
-			response := p.batcher.GetBatch()
+			response := p.takeBatch()
 			p.broadcastToReplicas(response)
 		}
 	}
@@ -222,7 +255,7 @@ func (p *Primary) OnWALSync(upToSeq uint64) {
 
 	// If we have any buffered entries, send them now that they're synced
 	if p.batcher.GetBatchCount() > 0 {
-		response := p.batcher.GetBatch()
+		response := p.takeBatch()
 		p.broadcastToReplicas(response)
 	}
 }
